@@ -260,6 +260,50 @@ PARSER_PACKAGES = tuple(f"pymarkdown/{name}/" for name in (
 ))
 
 
+def r04h(ctx: Context) -> None:
+    """'Every end token ... refers to the token it closes.'  The end token is built from what the stack entry holds
+    (its matching start token).  Where the parser replaces a start token that is already in the stream by a
+    corrected copy, the stack entry must be re-pointed at the copy on every path that puts the copy into the
+    stream - otherwise the end token refers to a start token that is not in the stream."""
+    prog = ctx.prog
+    rule = ctx.rule("R04h", "a start token replaced in the stream is replaced on the stack on the same paths", 2)
+    sites = [(func, site) for func in prog.iter_functions() for site in prog.sites_in(func)
+             if isinstance(site.node.func, ast.Attribute) and site.node.func.attr == "reset_matching_markdown_token" and site.node.args]
+    if len(sites) < 2:
+        raise AnalysisError(f"only {len(sites)} place(s) re-point a stack entry at a replaced start token (2 confirmed)")
+    for func, site in sites:
+        replacement = norm(site.node.args[0])
+        key = func_key(func, site.node)
+        placements = []
+        for stmt in walk_local(func.node):
+            if isinstance(stmt, ast.Expr) and isinstance(stmt.value, ast.Call) and isinstance(stmt.value.func, ast.Attribute) and stmt.value.func.attr in ("append", "insert", "extend"):
+                if any(norm(sub) == replacement for arg in stmt.value.args for sub in ast.walk(arg)):
+                    placements.append(stmt)
+        if not placements:
+            rule.ok(key, "re-pointed; the copy is put into the stream elsewhere")
+            continue
+        cfg = CFG(func.node, raising=lambda n: False)
+        holders = [stmt for stmt in walk_local(func.node) if isinstance(stmt, ast.stmt) and not hasattr(stmt, "body") and any(sub is site.node for sub in ast.walk(stmt)) and id(stmt) in cfg.stmt_node]
+        holder = holders[0] if holders else None
+        if holder is None:
+            raise AnalysisError(f"{func.short}: statement of the re-pointing call not found in the flow graph")
+        target = {cfg.stmt_node[id(holder)]}
+        bad = None
+        for placement in placements:
+            node_id = cfg.stmt_node.get(id(placement))
+            if node_id is None:
+                continue
+            before = all_paths_pass(cfg, cfg.entry, target, ends={node_id})
+            after = all_paths_pass(cfg, node_id, target, ends={cfg.exit})
+            if before is not None and after is not None:
+                bad = (placement, before + after[1:])
+                break
+        if bad:
+            rule.fail(key, where(func, bad[0]), f"'{norm(bad[0])[:70]}' puts the replacement start token '{replacement}' into the stream on a path that does not re-point the stack entry at it: the end token generated later refers to the discarded original, not to the start token in the stream", describe_path(cfg, bad[1]))
+        else:
+            rule.ok(key, f"every path that puts '{replacement}' into the stream re-points the stack entry")
+
+
 def run(ctx: Context) -> None:
     r04a(ctx)
     r04b(ctx)
@@ -267,6 +311,7 @@ def run(ctx: Context) -> None:
     r04d(ctx)
     r04e(ctx)
     r04f(ctx)
+    r04h(ctx)
     from sa.rules import c02
 
     c02.single_valued_branches(ctx, "R04g", only=PARSER_PACKAGES, floor=400)
